@@ -358,12 +358,15 @@ theorem thread_values (c : Cfg) (hg : c.Good) (r : StatRec) (hwf : r.WF) :
   exact splitOn_join 32 _ (statTokens_ne_nil r)
     (fun t ht => (statTokens_ok r hwf t ht).not_mem (Or.inr (Or.inl rfl)))
 
-theorem threadOne_render (c : Cfg) (hg : c.Good) (tck : Nat) (r : StatRec) (hwf : r.WF) :
+theorem pyDiv_pos (x : Rat) (tck : Nat) (htck : 0 < tck) : pyDiv x tck = .ok (x / tck) := by
+  simp [pyDiv, Nat.ne_of_gt htck]
+
+theorem threadOne_render (c : Cfg) (hg : c.Good) (tck : Nat) (htck : 0 < tck) (r : StatRec) (hwf : r.WF) :
     threadOne c tck r.pid (renderStat r)
       = .ok ⟨r.pid, (r.utime : Rat) / tck, (r.stime : Rat) / tck⟩ := by
   unfold threadOne threadValues
   simp only [stripWs_renderStat r hwf, hg.threadsUsesRfind, if_true, thread_values c hg r hwf,
     hg.tUtime, hg.tStime]
-  simp [statTokens, getField, bind, Except.bind, pure, Except.pure, pyFloat_renderDec]
+  simp [statTokens, getField, bind, Except.bind, pure, Except.pure, pyFloat_renderDec, pyDiv_pos _ tck htck]
 
 end Psutil.C06
